@@ -16,6 +16,10 @@ def run(ctx):
     if ok_go:
         # block level: the block map of a real file before/after each operation against the transliterated bmap/Shrink
         fscklib.run_blockmap(ctx, ok_drv, ["-cases", "100", "-ops", "30"] if ctx.tier == "thorough" else ["-cases", "24", "-ops", "25"])
+        # a REFUSED request must not change what later requests return: full-disk scenarios in which the blocks a refused WRITE was
+        # handed and gave back go to another file; what is read back from either file afterwards is what was written (or zeros)
+        rl = fscklib.run_images(ctx, ok_drv, "reclaim", ["reclaim", "-seed", str(ctx.seed)] + (["-hists", "6", "-rounds", "2"] if ctx.tier == "thorough" else ["-hists", "2", "-rounds", "1"]), set(), False)
+        fscklib.oracle_lines(ctx, rl, "C02", "harness reclaim -seed %d (full-disk scenarios: read-back after the blocks of a refused WRITE were reused)" % ctx.seed)
     vlib.finish(
         ctx, "proof",
         "theorems about the reference model (read-only procedures and restarts are the identity, written bytes are read back, created names "
@@ -26,5 +30,5 @@ def run(ctx):
         ["status codes are compared by class (OK / STALE / NOTSUPP / other error)", "server-chosen timestamps are not compared",
          "the allocator's inode number and the directory slot of a new name are inputs the model validates, not predictions",
          "direct calls of the exported NFSPROC3_* methods (the XDR/RPC transport is covered by C16)",
-         "disk large enough that space is never the limit (exhaustion is C09's subject)"],
+         "random sequences run on a disk large enough that space is never the limit; exhaustion is covered by the directed full-disk scenarios (read-back oracles) and is C09's subject"],
         pending=[])
